@@ -1053,8 +1053,11 @@ class Router(object):
         if re_str != "^\\/":
             re_str += "\\/?"
 
-        re_str += '$'
-        return (re.compile(re_str), tokens)
+        # (\Z and DOTALL: a line feed is a character of a segment like any
+        # other - '$' also matches in front of a trailing line feed, and
+        # '.' would not match one)
+        re_str += '\\Z'
+        return (re.compile(re_str, re.DOTALL), tokens)
 
     def dispatch(self, request):
 
